@@ -164,6 +164,19 @@ func (p dtSc) check(calls []*call, final string, e *vsched.Execution) sched.Outc
 				return fail("declared-type-returned", fmt.Sprintf("%s GetDataType returned * although SetDataType(%q) had completed before the call", c.thread, d.arg))
 			}
 		}
+		// … and, when the * is the reader-side abort after ForceClose, no valid declaration had completed
+		// before the ForceClose began either: the aborting reader looks at the type after it has seen the
+		// cancellation, so a type declared before the cancellation is there to be seen
+		for _, f := range calls {
+			if f.kind != "force" || f.start > c.end {
+				continue
+			}
+			for _, d := range calls {
+				if d.kind == "set" && valid(d.arg) && d.end < f.start {
+					return fail("declared-type-returned", fmt.Sprintf("%s GetDataType returned * after ForceClose although SetDataType(%q) had completed before the ForceClose began", c.thread, d.arg))
+				}
+			}
+		}
 		// … and only once every writer has (at least begun to) close, or after ForceClose
 		if !forced(c.end) {
 			for i := range p.writers {
